@@ -193,9 +193,114 @@ func resets(r *evid.Run) {
 
 // ---- small values of every type: the bytes do not depend on the entry point ----
 
+// toScalar, toBig, viaJSON and viaText are top-level values produced by the caller's own methods.
+type toScalar struct{ N int }
+
+func (t toScalar) MarshalJSONTo(e *jsontext.Encoder) error {
+	return e.WriteToken(jsontext.Int(int64(t.N)))
+}
+
+type toBig struct{ N int }
+
+func (t toBig) MarshalJSONTo(e *jsontext.Encoder) error {
+	if err := e.WriteToken(jsontext.BeginObject); err != nil {
+		return err
+	}
+	for i := 0; i < t.N; i++ {
+		if err := e.WriteToken(jsontext.String(fmt.Sprintf("k%04d", i))); err != nil {
+			return err
+		}
+		if err := e.WriteValue(jsontext.Value(`[1,"x",null]`)); err != nil {
+			return err
+		}
+	}
+	return e.WriteToken(jsontext.EndObject)
+}
+
+type viaJSON struct{ S string }
+
+func (v viaJSON) MarshalJSON() ([]byte, error) { return []byte(` {"s": "` + v.S + `" } `), nil }
+
+type viaText struct{ S string }
+
+func (v viaText) MarshalText() ([]byte, error) { return []byte(v.S), nil }
+
+type plainS struct {
+	A int
+	B string
+}
+
+// smallOne compares every streaming entry point with Marshal for one value and option list.
+func smallOne(v any, opts []jsonv2.Options) (msg string) {
+	defer func() {
+		if p := recover(); p != nil {
+			msg = fmt.Sprintf("library panic: %v", p)
+		}
+	}()
+	want, err := jsonv2.Marshal(v, opts...)
+	if err != nil {
+		return ""
+	}
+	var bb bytes.Buffer
+	if err := jsonv2.MarshalWrite(&bb, v, opts...); err != nil || !bytes.Equal(bb.Bytes(), want) {
+		return fmt.Sprintf("MarshalWrite(bytes.Buffer) delivers %q (err=%v), Marshal returns %q", trunc(bb.Bytes()), err, trunc(want))
+	}
+	pw := &plainWriter{}
+	if err := jsonv2.MarshalWrite(pw, v, opts...); err != nil || !bytes.Equal(pw.b, want) {
+		return fmt.Sprintf("MarshalWrite(plain writer) delivers %q (err=%v), Marshal returns %q", trunc(pw.b), err, trunc(want))
+	}
+	// two values in a row on streaming Encoders: each followed by exactly one newline
+	for _, mk := range []func() (*jsontext.Encoder, func() []byte){
+		func() (*jsontext.Encoder, func() []byte) {
+			w := &plainWriter{}
+			return jsontext.NewEncoder(w, opts...), func() []byte { return w.b }
+		},
+		func() (*jsontext.Encoder, func() []byte) {
+			var b bytes.Buffer
+			return jsontext.NewEncoder(&b, opts...), b.Bytes
+		},
+	} {
+		enc, out := mk()
+		e1 := jsonv2.MarshalEncode(enc, v)
+		mid := string(out())
+		e2 := jsonv2.MarshalEncode(enc, v)
+		exp := string(want) + "\n" + string(want) + "\n"
+		if e1 != nil || e2 != nil || string(out()) != exp {
+			return fmt.Sprintf("two MarshalEncode calls on a streaming Encoder deliver %q (errors %v, %v), want %q", trunc(out()), e1, e2, trunc([]byte(exp)))
+		}
+		if mid != string(want)+"\n" {
+			return fmt.Sprintf("after the first MarshalEncode call returned, the writer holds %q, want %q", trunc([]byte(mid)), trunc(append(want, '\n')))
+		}
+	}
+	return ""
+}
+
+var optSetsSV = [][]jsonv2.Options{{jsonv2.Deterministic(true)}, {jsonv2.Deterministic(true), jsonv2.StringifyNumbers(true)}, {jsonv2.Deterministic(true), jsontext.Multiline(true)},
+	{jsonv2.Deterministic(true), jsontext.SpaceAfterComma(true)}, {jsonv2.Deterministic(true), jsontext.SpaceAfterColon(true), jsontext.SpaceAfterComma(true)}}
+
+var svFuncs = jsonv2.WithMarshalers(jsonv2.JoinMarshalers(
+	jsonv2.MarshalToFunc(func(e *jsontext.Encoder, p plainS) error {
+		if err := e.WriteToken(jsontext.BeginArray); err != nil {
+			return err
+		}
+		if err := e.WriteToken(jsontext.Int(int64(p.A))); err != nil {
+			return err
+		}
+		if err := e.WriteToken(jsontext.String(p.B)); err != nil {
+			return err
+		}
+		return e.WriteToken(jsontext.EndArray)
+	}),
+	jsonv2.MarshalFunc(func(b bool) ([]byte, error) { return []byte(fmt.Sprintf(` "%v" `, b)), nil }),
+))
+
+func userValues() []any {
+	return []any{emptyTo{}, emptyObjTo{}, toScalar{7}, &toScalar{-1}, toBig{1}, toBig{300}, toBig{700}, viaJSON{"x"}, viaJSON{strings.Repeat("y", 5000)}, viaText{"t"}, viaText{strings.Repeat("z", 4090)},
+		plainS{1, "b"}, &plainS{2, strings.Repeat("q", 4100)}, true, []any{toScalar{1}, plainS{3, "c"}, false}, map[string]any{"k": toBig{2}}}
+}
+
 func smallValues(r *evid.Run) {
 	ts := typeuniv.Universe(typeuniv.Cfg{Depth: 1, NoInvalid: true})
-	optSetsSV := [][]jsonv2.Options{{jsonv2.Deterministic(true)}, {jsonv2.Deterministic(true), jsonv2.StringifyNumbers(true)}, {jsonv2.Deterministic(true), jsontext.Multiline(true)}}
 	enum.Parallel(r, len(ts), func(w *enum.Worker) func(int) {
 		var cur Case
 		w.Describe = func() any { return cur }
@@ -208,46 +313,7 @@ func smallValues(r *evid.Run) {
 				for oi, opts := range optSetsSV {
 					n++
 					cur = Case{Part: "small-value", Value: vi, OptSet: fmt.Sprint(oi), Path: typeuniv.Describe(t)}
-					msg := func() (msg string) {
-						defer func() {
-							if p := recover(); p != nil {
-								msg = fmt.Sprintf("library panic: %v", p)
-							}
-						}()
-						want, err := jsonv2.Marshal(v, opts...)
-						if err != nil {
-							return ""
-						}
-						var bb bytes.Buffer
-						if err := jsonv2.MarshalWrite(&bb, v, opts...); err != nil || !bytes.Equal(bb.Bytes(), want) {
-							return fmt.Sprintf("MarshalWrite(bytes.Buffer) delivers %q (err=%v), Marshal returns %q", trunc(bb.Bytes()), err, trunc(want))
-						}
-						pw := &plainWriter{}
-						if err := jsonv2.MarshalWrite(pw, v, opts...); err != nil || !bytes.Equal(pw.b, want) {
-							return fmt.Sprintf("MarshalWrite(plain writer) delivers %q (err=%v), Marshal returns %q", trunc(pw.b), err, trunc(want))
-						}
-						// two values in a row on streaming Encoders: each followed by exactly one newline
-						for _, mk := range []func() (*jsontext.Encoder, func() []byte){
-							func() (*jsontext.Encoder, func() []byte) {
-								w := &plainWriter{}
-								return jsontext.NewEncoder(w, opts...), func() []byte { return w.b }
-							},
-							func() (*jsontext.Encoder, func() []byte) {
-								var b bytes.Buffer
-								return jsontext.NewEncoder(&b, opts...), b.Bytes
-							},
-						} {
-							enc, out := mk()
-							e1 := jsonv2.MarshalEncode(enc, v)
-							e2 := jsonv2.MarshalEncode(enc, v)
-							exp := string(want) + "\n" + string(want) + "\n"
-							if e1 != nil || e2 != nil || string(out()) != exp {
-								return fmt.Sprintf("two MarshalEncode calls on a streaming Encoder deliver %q (errors %v, %v), want %q", trunc(out()), e1, e2, trunc([]byte(exp)))
-							}
-						}
-						return ""
-					}()
-					if msg != "" {
+					if msg := smallOne(v, opts); msg != "" {
 						r.Violation(fmt.Sprintf("c07|small-value|%s|%d|%d", typeuniv.Describe(t), vi, oi), fmt.Sprintf("%s value #%d: %s", typeuniv.Describe(t), vi, msg), cur, nil)
 					}
 				}
@@ -255,5 +321,23 @@ func smallValues(r *evid.Run) {
 			w.Beat()
 		}
 	})
-	r.Bound("small values: %d generated types x value domains x 3 option sets x {MarshalWrite to bytes.Buffer / plain writer, two MarshalEncode calls on a streaming Encoder over a plain writer / bytes.Buffer}: bytes equal Marshal's", len(ts))
+	r.Bound("small values: %d generated types x value domains x %d option sets (incl. SpaceAfterComma / SpaceAfterColon) x {MarshalWrite to bytes.Buffer / plain writer, two MarshalEncode calls on a streaming Encoder over a plain writer / bytes.Buffer}: bytes equal Marshal's, and the first value has reached the writer when its call returns", len(ts), len(optSetsSV))
+
+	// top-level values produced by the caller's own methods and functions
+	userVals := userValues()
+	var nu int64
+	for vi, v := range userVals {
+		for oi, base := range optSetsSV {
+			for fi, opts := range [][]jsonv2.Options{base, append(append([]jsonv2.Options{}, base...), svFuncs)} {
+				nu++
+				if msg := smallOne(v, opts); msg != "" {
+					cur := Case{Part: "user-value", Value: vi, OptSet: fmt.Sprint(oi), Warm: fi}
+					r.Violation(fmt.Sprintf("c07|user-value|%d|%d|%d", vi, oi, fi), fmt.Sprintf("top-level value %T (#%d), option set %d, functions=%d: %s", v, vi, oi, fi, msg), cur, nil)
+				}
+			}
+		}
+	}
+	r.Evaluations.Add(nu * 4)
+	r.Nontrivial.Add(nu)
+	r.Bound("top-level values written by the caller's MarshalJSONTo / MarshalJSON / MarshalText methods and MarshalToFunc / MarshalFunc functions (%d values, 1 byte to 12 KiB) x %d option sets x {methods only, with functions}: same four entry points", len(userVals), len(optSetsSV))
 }
